@@ -258,9 +258,15 @@ PROPS["C01"] = {
                   "references to the objects registered under the names of the node's children: element, key, array length, struct "
                   "members with name, embedded flag and verbatim tag, parameters, results, variadic flag, receiver, underlying type of a "
                   "defined type (alias rule) and the struct/… shape of a defined type (flattening rule); objects that already have a kind "
-                  "are never touched by a later walk. PARTIAL: method sets and generic declarations are outside the kernel-checked "
-                  "description (the methods phase is proved to leave everything else intact); that equal node names mean equal types is "
-                  "go/types' String(). Complete canonical universe dumps of the real v1 and v2 loaders are compared with the model on "
+                  "are never touched by a later walk. With no restriction on generics (Lemmas/WalkName.lean): the object a lookup of name n "
+                  "returns, if it was filled, was filled from a node that walkType files under n - the node go/types prints as n, the "
+                  "underlying node of the defined type printed as n (flattening rule), or the signature of the method printed as n - so "
+                  "what the universe says under a name is what the type checker says about the type of that name (lookup_faithful_v1/v2, "
+                  "after any sequence of incremental loads). The hypotheses the theorems place on the facts (NoGenerics, WellFormed, "
+                  "Consistent) are decided per correspondence case by executable checks proved sound (Model/FactsCheck, "
+                  "Lemmas/FactsCheckSound) and the evidence counts the cases that meet them. PARTIAL: method sets and generic declarations "
+                  "are outside the kernel-checked description (the methods phase is proved to leave everything else intact); that equal "
+                  "node names mean equal types is go/types' String(). Complete canonical universe dumps of the real v1 and v2 loaders are compared with the model on "
                   "generated programs (incl. generics, methods, incremental loads with hand lookups), and an oracle walks go/types "
                   "independently and compares every reported attribute.",
     "level_note": _UNI_NOTE,
@@ -297,8 +303,15 @@ PROPS["C11"] = dict(PROPS["C01"], lean=["Gengo.Props.C11"],
                "incremental LoadPackagesTo keeps every earlier request and every scanned package, scans exactly the new requests in "
                "addition and never a mere dependency - so every split and order of a request set ends with the same set of scanned and "
                "stub packages as one combined load; visiting a package unknown to the type checker fails; the input list is the sorted "
-               "request set. PARTIAL: that the content recorded for a scanned package does not depend on the order is C01's walk invariant "
-               "(proved on the prototype model only, see C01). v1 Builder: findTypesIn leaves the state untouched for a package that "
+               "request set. On the full model (Lemmas/WalkName.lean, WalkIso.lean): take the same program and load it twice, with any "
+               "initial requests and any sequences of incremental loads (v2 LoadPackagesTo, v1 AddDirTo); whatever name is registered and "
+               "filled in both universes stands for objects of the same kind whose array lengths, member names, embedded flags, tags, "
+               "parameter and result names and variadic flags are equal and whose referenced objects are again registered under common "
+               "names - 'registered under the same name' is a bisimulation, the universes are isomorphic on their common part however the "
+               "loading was split (split_and_order_irrelevant_v1/v2; hypothesis Consistent: go/types prints nodes of different shape "
+               "differently, checked per case). PARTIAL: receivers are outside the cross-universe statement (a method signature prints "
+               "like the plain function type); that the common part contains everything reachable from the packages requested in both "
+               "is compared, not proved. v1 Builder: findTypesIn leaves the state untouched for a package that "
                "was not requested, scans exactly the scope of a requested one, fails for a package the type checker does not know; "
                "FindTypes and AddDirTo keep / extend the request set. On the full model: whatever name resolved to an object before an "
                "incremental load (v2 LoadPackagesTo, v1 AddDirTo) resolves to the same object afterwards, with the same name and any kind it had. The complete universes of random splits/orders are compared on the real loaders with the model and "
